@@ -70,6 +70,15 @@ pub const INDEX_OPS: &[&str] = &[
     "path_text_slice",
     "keypath_text",
     "get_by_index_extreme",
+    // extreme VALUES rather than positions: NaN, the infinities, negative zero, the ends of the integer ranges
+    "special_compare",
+    "special_render",
+    "special_comparable",
+    "special_decode_eq",
+    "special_contains",
+    "special_filter",
+    "special_sets",
+    "special_casts",
 ];
 
 /// rendering with indentation is quadratic in depth; keep the output below ~1 GB
@@ -497,6 +506,78 @@ fn run_depth_op(op: &str, shape: &str, depth: u64) -> String {
     }
 }
 
+/// Documents holding the special numbers; every comparing, rendering, decoding and set operation must get through them.
+fn run_special(op: &str) -> String {
+    let specials = vec![
+        MVal::F64(mval::CANON_NAN), MVal::U64(1), MVal::f(1.5), MVal::f(f64::INFINITY), MVal::f(f64::NEG_INFINITY), MVal::f(-0.0), MVal::U64(0),
+        MVal::I64(i64::MIN), MVal::U64(u64::MAX), MVal::U64((1 << 53) + 1), MVal::f(5e-324), MVal::f(f64::MAX), MVal::s("s"), MVal::Null,
+    ];
+    let doc = mval::encode(&MVal::Arr(specials.clone()));
+    let scalars: Vec<Vec<u8>> = specials.iter().map(mval::encode).collect();
+    let mut out = vec![];
+    let mut offs = vec![];
+    match op {
+        "special_compare" => {
+            let _ = jsonb::compare(&doc, &doc);
+            for a in &scalars {
+                for b in &scalars {
+                    let _ = jsonb::compare(a, b);
+                }
+            }
+        }
+        "special_render" => {
+            let _ = (jsonb::to_string(&doc), jsonb::to_pretty_string(&doc));
+            for a in &scalars {
+                let _ = (jsonb::to_string(a), jsonb::to_str(a));
+            }
+        }
+        "special_comparable" => {
+            jsonb::convert_to_comparable(&doc, &mut out);
+            for a in &scalars {
+                jsonb::convert_to_comparable(a, &mut out);
+            }
+        }
+        "special_decode_eq" => {
+            if let Ok(v) = jsonb::from_slice(&doc) {
+                let w = v.clone();
+                let _ = v == w;
+                let _ = format!("{v} {v:?}");
+                let _ = v.to_vec();
+            }
+            let _ = jsonb::parse_jsonb(&doc);
+        }
+        "special_contains" => {
+            let _ = jsonb::contains(&doc, &doc);
+            for a in &scalars {
+                let _ = jsonb::contains(&doc, a);
+            }
+        }
+        "special_filter" => {
+            for lit in [jp::PathValue::Number(jsonb::Number::UInt64(1)), jp::PathValue::Number(jsonb::Number::Float64(f64::NAN)), jp::PathValue::Number(jsonb::Number::Int64(i64::MIN))] {
+                for bop in [jp::BinaryOperator::Gt, jp::BinaryOperator::Eq, jp::BinaryOperator::NotEq, jp::BinaryOperator::Lte] {
+                    let e = jp::Expr::BinaryOp { op: bop, left: Box::new(jp::Expr::Paths(vec![jp::Path::Current])), right: Box::new(jp::Expr::Value(Box::new(lit.clone()))) };
+                    let p = jp::JsonPath { paths: vec![jp::Path::Root, jp::Path::BracketWildcard, jp::Path::FilterExpr(Box::new(e))] };
+                    let _ = jsonb::get_by_path(&doc, p, &mut out, &mut offs);
+                }
+            }
+        }
+        "special_sets" => {
+            let _ = jsonb::array_distinct(&doc, &mut out);
+            let _ = jsonb::array_intersection(&doc, &doc, &mut out);
+            let _ = jsonb::array_except(&doc, &doc, &mut out);
+            let _ = jsonb::array_overlap(&doc, &doc);
+        }
+        "special_casts" => {
+            for a in &scalars {
+                let _ = (jsonb::as_f64(a), jsonb::as_i64(a), jsonb::as_u64(a), jsonb::to_f64(a).is_ok(), jsonb::to_i64(a).is_ok(), jsonb::to_u64(a).is_ok(), jsonb::to_bool(a).is_ok(), jsonb::to_serde_json(a).is_ok());
+            }
+            let _ = jsonb::to_serde_json(&doc).is_ok();
+        }
+        other => return format!("harness:unknown_special:{other}"),
+    }
+    "completed".into()
+}
+
 /// Index cases that go through the text parsers (JSONPath / key path) before the evaluator.
 fn run_index_text_op(op: &str, index: i32, index2: i32, len: usize, text: bool) -> String {
     let arr = index_doc(len);
@@ -751,6 +832,7 @@ pub fn child_main(arg: &str) -> i32 {
         guard(|| match &case {
             Case::Api { func, variant, shape, depth, .. } => run_api(func, variant, shape, *depth),
             Case::Depth { op, shape, depth, .. } => run_depth_op(op, shape, *depth),
+            Case::Index { op, .. } if op.starts_with("special_") => run_special(op),
             Case::Index { op, index, index2, len, text, .. } if op.contains("text") || op == "get_by_index_extreme" => run_index_text_op(op, *index, *index2, *len, *text),
             Case::Index { op, index, index2, len, text, .. } => run_index_op(op, *index, *index2, *len, *text),
         })
@@ -890,7 +972,12 @@ impl Limits {
                 }
             }
         }
-        for op in INDEX_OPS {
+        for op in INDEX_OPS.iter().filter(|o| o.starts_with("special_")) {
+            for build in BUILDS {
+                v.push(Case::Index { op: op.to_string(), index: 0, index2: 0, len: 0, text: false, build: build.to_string() });
+            }
+        }
+        for op in INDEX_OPS.iter().filter(|o| !o.starts_with("special_")) {
             for len in [0usize, 1, 3] {
                 let l = len as i32;
                 let mut idxs = vec![i32::MIN, i32::MIN + 1, -l - 1, -l, -1, 0, l - 1, l, l + 1, i32::MAX - 1, i32::MAX];
